@@ -45,7 +45,9 @@ BOUND = {
     "for one seed-chosen partner; 2 deviations: extra atom + omitted atom, "
     "omitted atom pairs, partner pairs on the ideal tetrahedral slots of a "
     "hydroxyl (two donors: both lone-pair placeholders in use); the torsion "
-    "alphabet and the alias-name block of S3 (see C04); "
+    "alphabet, the alias-name, alternate-location and shifted blocks of S3 "
+    "(see C04); peptide + MOL2 ligand + hetero groups sharing atom names "
+    "(written-or-reported oracle); "
     "nucleic strands x naming x force fields; 18 chain layouts x 4 residue "
     "types x {--clean, --nodebump --noopt} (global conservation oracle)",
     "thorough": "quick + water probes 3.4 A, all 15 partners, water+water, "
